@@ -18,28 +18,28 @@ CHECKS = {
    text="Dump and Load are separate spec actions interleaved with unit algebra; TLC enumerates the interleavings; every Load on the real library must return the identical object and leave the table unchanged.",
    note="Units only in this model for now (dimensions, prefixes, quantities: see DESIGN)."),
 
- "C04": dict(engine="conversions", technique="TLA+ spec (Conversions.tla + MC_ConvShapes): TLC enumerates every equal-dimension unit pair within bounds over a synthetic exactly-consistent system and solves the exact size ratio from the declarations; each pair replayed on the real library",
+ "C04": dict(engine="conversions", technique="TLA+ spec (Conversions.tla + MC_ConvShapes): TLC enumerates every equal-dimension unit pair within bounds over a synthetic exactly-consistent system and solves the exact size ratio from the declarations; each pair replayed on the real library; trace validation of recorded public calls against Ledger.tla (TLC)",
    category="model_checking", design_ref="§5 C04",
    text="TLC is the exhaustive small-scope enumerator and the exact-arithmetic oracle (sizes as prime-exponent vectors solved from the declarations only, consistency of the system itself checked as an invariant); every exported pair is converted by the real library in a fresh fork (cold planner caches) and again in shared processes (warm); unit identity and magnitude (1e-12) are compared whenever the conversion returns.",
    note="Synthetic system S1 only at this level (shipped definitions: see C09 and DESIGN); conditional on the conversion returning; float comparison at 1e-12."),
- "C05": dict(engine="conversions", technique="TLA+ spec (Conversions.tla): homomorphism theorems checked by TLC on the size model; TLC-enumerated pairs and triples replayed on the real library comparing the code's own results (linearity, zero, self, round trip, via intermediate)",
+ "C05": dict(engine="conversions", technique="TLA+ spec (Conversions.tla): homomorphism theorems checked by TLC on the size model; TLC-enumerated pairs and triples replayed on the real library comparing the code's own results (linearity, zero, self, round trip, via intermediate); trace validation of recorded public calls against Ledger.tla (TLC)",
    category="model_checking", design_ref="§5 C05",
    text="The statement's relations are theorems of the size model (checked by TLC as invariants over all declaration subsets); on the code they are relations among its own results for every TLC-enumerated pair and triple, so they can hold where C04 has a finding.",
    note="Synthetic S1; magnitudes {3, -6, 0, 0.75, Decimal 4.5}; tolerance 1e-12."),
- "C07": dict(engine="conversions", technique="TLA+ spec (Conversions.tla outcome alphabet) with TLC enumerating partially connected declaration subsets x unit pairs; every case executed under python and python -O and the outcomes compared",
+ "C07": dict(engine="conversions", technique="TLA+ spec (Conversions.tla outcome alphabet) with TLC enumerating partially connected declaration subsets x unit pairs; every case executed under python and python -O and the outcomes compared; trace validation of recorded public calls against Ledger.tla (TLC)",
    category="model_checking", design_ref="§5 C07",
    text="TLC enumerates configurations (subsets of a 6-declaration droppable set: 64 partially connected systems) and equal-dimension pairs; each (configuration, pair) runs on the real library in both interpreter modes; the exception class of convert/==/</+/- must lie in the spec's alphabet and the two modes must agree on outcome and value.",
    note="Quick samples 6 of the 64 configurations (seeded) ; thorough runs all 64."),
- "C08": dict(engine="conversions", technique="TLA+ spec (Conversions.tla, no memo in the deciding spec; MemoShipped.tla mechanism model for non-vacuity) model-checked with TLC; every history (interleaving of declarations, conversions, comparisons) replayed on the real library",
+ "C08": dict(engine="conversions", technique="TLA+ spec (Conversions.tla, no memo in the deciding spec; MemoShipped.tla mechanism model for non-vacuity) model-checked with TLC; every history (interleaving of declarations, conversions, comparisons) replayed on the real library; trace validation of recorded public calls against Ledger.tla (TLC)",
    category="model_checking", design_ref="§5 C08",
    text="All interleavings of up to 3 declarations and 2 queries over 3 (quick) / 4 (thorough) single units are enumerated by TLC; each step is executed on the real library in a process holding exactly the preceding history and its outcome compared with F(decl) from the spec; repeats must be identical; for compound units outcomes in a fresh fork and after thousands of other conversions must agree. MemoShipped must violate C08_Function in TLC.",
    note="Node units: F fully prescribed; compound units: single-valuedness only (cold vs warm)."),
 
- "C03": dict(engine="quantities", technique="TLA+ spec (Quantities.tla) with TLC enumerating operator spelling x operand kind x unit cases and computing the prescribed dimension / Decimal-ness / left unit / rejection; every case replayed on the real library",
+ "C03": dict(engine="quantities", technique="TLA+ spec (Quantities.tla) with TLC enumerating operator spelling x operand kind x unit cases and computing the prescribed dimension / Decimal-ness / left unit / rejection; every case replayed on the real library; trace validation of recorded public calls against Ledger.tla (TLC)",
    category="model_checking", design_ref="§5 C03",
    text="Small-scope exhaustive: every operator spelling of the API (q+q, q-q, q*q, q/q, q**n, root, unary, n*q, q*n, q/n, n/q, q*u, u*q, q/u, in_unit, six comparisons in both orders) over a pool of quantities in three magnitude kinds and compound/prefixed units; the spec prescribes outcome class, dimension, Decimal-ness and the left unit; the code's result is compared for each case.",
    note="Synthetic dyadic system S2; pool sizes in evidence; conversions the planner refuses are counted, not judged."),
- "C06": dict(engine="quantities", technique="TLA+ spec (Quantities.tla: Phys homomorphism, exact rational arithmetic) with TLC computing the SI value / truth value of every operator case; replayed on the real library and compared through alpha (magnitude x exact size)",
+ "C06": dict(engine="quantities", technique="TLA+ spec (Quantities.tla: Phys homomorphism, exact rational arithmetic) with TLC computing the SI value / truth value of every operator case; replayed on the real library and compared through alpha (magnitude x exact size); trace validation of recorded public calls against Ledger.tla (TLC)",
    category="model_checking", design_ref="§5 C06",
    text="The pool contains the same physical values written in different convertible units and prefixes (decimal and binary); TLC computes Phys(op(a,b)) exactly; the code's result is mapped to its SI value with exact Fractions and compared (exact on dyadic data, 1e-12 otherwise; for + and - relative to the operands).",
    note="Synthetic S2; offset scales excluded (C10)."),
@@ -47,7 +47,7 @@ CHECKS = {
    category="model_checking", design_ref="§5 C11",
    text="All cases of the Quantities enumeration whose operands carry a prefix: the result's unit must have the normal form p**n * u**n / added prefix exponents (same base, exact) and the SI value must be prefix factor times unit (1e-9 across bases, as the statement allows).",
    note="Prefixes exercised: 10^3, 10^-3, 2^10 and their products/powers; registered SI and IEC tables are walked separately in the thorough tier (see evidence)."),
- "C12": dict(engine="quantities", technique="TLA+ spec (Quantities.tla: order by Phys; trichotomy and symmetry checked by TLC on the model) with every ordered pair replayed on the real library: six operators in both argument orders, hash, sorted()",
+ "C12": dict(engine="quantities", technique="TLA+ spec (Quantities.tla: order by Phys; trichotomy and symmetry checked by TLC on the model) with every ordered pair replayed on the real library: six operators in both argument orders, hash, sorted(); trace validation of recorded public calls against Ledger.tla (TLC)",
    category="model_checking", design_ref="§5 C12",
    text="TLC prescribes the physical order (-1/0/+1) of every commensurable pair of the pool; the code's ==, !=, <, <=, >, >= in both argument orders must be exactly the truth table of that order; equal pairs must hash equally; random mixed-unit lists must sort into physical order.",
    note="Synthetic S2; Level/Measurement symmetry is covered in the thorough tier section of the evidence when present."),
@@ -113,6 +113,7 @@ m = {"version": 1, "setup_cmd": "./setup.sh",
    {"name": "levels", "path": "spec/Levels.tla spec/MC_Levels.tla harness/levels.py", "serves_properties": ["C18"], "kind_free_text": "TLC exact linear oracle + replay through a high-precision exponential map"},
    {"name": "text", "path": "spec/Text.tla spec/MC_Text.tla harness/text.py", "serves_properties": ["C13"], "kind_free_text": "TLC collision enumeration over real symbol tables + conformance of the resolution model + render/parse replay"},
    {"name": "defgraph", "path": "spec/DefGraph.tla spec/MC_DefGraph.tla harness/defgraph.py", "serves_properties": ["C09"], "kind_free_text": "TLC solves and checks the shipped definition graph on a log-lattice; exact re-confirmation; conversions on the real library"},
+   {"name": "ledger", "path": "spec/Ledger.tla spec/MC_LedgerTrace.tla harness/ledger.py harness/ledger_driver.py harness/ops_recorder.py", "serves_properties": ["C03", "C04", "C05", "C06", "C07", "C08", "C12"], "kind_free_text": "TLC trace validation (code->spec) of recorded public calls - a seeded random program over the shipped units and the repository's own test suite - against a running definition-graph spec that solves unit sizes from the declarations"},
    {"name": "registry", "path": "spec/Registry.tla spec/MC_Registry.tla harness/registry.py harness/alpha.py", "serves_properties": ["C01", "C02", "C15"], "kind_free_text": "TLC model checking + spec->code replay of every transition (fork tree)"},
  ],
  "checks": [], "notes": "Every check: ./check <id> [--tier quick|thorough]; exit 0 held / 1 VIOLATION / 2 machinery failure. known_findings.txt lists genuine defects left unrepaired and repairs made.",
